@@ -88,7 +88,7 @@ func maskEquals(m *ecs.Mask, model []bool, ids []ecs.ID) (int, bool) {
 }
 
 // checkMaskCase runs one mask case; returns an error message or "".
-func checkMaskCase(c *maskCase) string {
+func checkMaskCaseRaw(c *maskCase) string {
 	ids := core.RawIDs()
 	n := len(ids)
 	toIDs := func(v []int) []ecs.ID {
@@ -215,7 +215,7 @@ func checkMaskCase(c *maskCase) string {
 }
 
 // checkFilterCase evaluates the compiled filter on every listed component set.
-func checkFilterCase(c *filterCase) string {
+func checkFilterCaseRaw(c *filterCase) string {
 	ids := core.RawIDs()
 	flt := c.F.Compile(func(i int) ecs.ID { return ids[i] }, nil)
 	for _, set := range c.Sets {
@@ -505,4 +505,20 @@ func TestC04(t *testing.T) {
 			})
 		})
 	})
+}
+
+// checkMaskCase / checkFilterCase: a panic of a mask or filter operation on legal arguments is a
+// failure of the case, not of the harness.
+func checkMaskCase(c *maskCase) (msg string) {
+	if p := core.Call(func() { msg = checkMaskCaseRaw(c) }); p != nil {
+		return fmt.Sprintf("a mask operation panicked: %v", p)
+	}
+	return msg
+}
+
+func checkFilterCase(c *filterCase) (msg string) {
+	if p := core.Call(func() { msg = checkFilterCaseRaw(c) }); p != nil {
+		return fmt.Sprintf("a filter operation panicked: %v", p)
+	}
+	return msg
 }
